@@ -153,6 +153,9 @@ func (s *Spec) emitTypeDecl(b *strings.Builder, t *Type, pkg string) {
 		}
 		fmt.Fprintf(b, "func %s(h uint64) %s {\n\tx := %s{v: probe.V{H: h}}\n", mk, ex, t.Name)
 		for fi, f := range t.Fields {
+			if !s.carriesH(s.Types[f.T]) {
+				continue
+			}
 			fmt.Fprintf(b, "\tx.%s = mk%d(probe.Mix(h, %d))\n", f.Name, f.T, 1000+fi) // structs with fields live in the main package
 		}
 		fmt.Fprintf(b, "\treturn x\n}\n")
@@ -402,3 +405,6 @@ func (s *Spec) emitReg() string {
 	body := b.String()
 	return s.header(s.mainPkgName(), body, true) + body
 }
+
+// Header renders a main-package file header importing what body uses.
+func (s *Spec) Header(body string) string { return s.header(s.mainPkgName(), body, true) }
